@@ -98,10 +98,21 @@ def fail(bucket, what, expected, observed):
     return {"bucket": bucket, "what": what, "expected": expected, "observed": observed}
 
 
+
+def _with_interpreter_variants(specs, tier, n_small, extra=None):
+    """The same shard body in child interpreters started with other flags / environment variables."""
+    from vlib.runner import INTERPRETERS
+    base = dict(extra or {})
+    for name in INTERPRETERS:
+        s = dict(base, n=n_small if tier == "quick" else n_small * 6, interp=name)
+        specs.append(s)
+    return specs
+
+
 def plan(tier, seed):
     if tier == "quick":
-        return [{"n": 800} for _ in range(16)]
-    return [{"n": 8000} for _ in range(16)]
+        return _with_interpreter_variants([{"n": 800} for _ in range(16)], tier, 100)
+    return _with_interpreter_variants([{"n": 8000} for _ in range(16)], tier, 100)
 
 
 def multiline(ast, r):
